@@ -172,14 +172,14 @@ class Check:
     # ---------- translator ----------
     def srcgen(self):
         with Lock('go.srcgen.lock'):
-            rc, out = sh(['go', 'build', '-o', os.path.join(BUILD, 'srcgen'), './cmd/srcgen'], cwd=HARNESS, timeout=300)
+            rc, out = sh(['go', 'build', '-o', os.path.join(BUILD, 'srcgen'), './cmd/srcgen'], cwd=HARNESS, timeout=1200)
             if rc != 0:
                 self.log('srcgen build failed:\n' + out[-2000:])
                 self.broken.append('translator: harness/cmd/srcgen does not build')
                 return False
             with Lock('coq.lock'):
                 rc, out = sh([os.path.join(BUILD, 'srcgen'), '-repo', os.path.join(REPO, 'codec'),
-                              '-out', os.path.join(COQ, 'theories', 'Gen')], timeout=300)
+                              '-out', os.path.join(COQ, 'theories', 'Gen')], timeout=1200)
         if out.strip():
             self.log(out.strip()[-1500:])
         if rc != 0:
@@ -188,7 +188,7 @@ class Check:
         return True
 
     # ---------- Coq ----------
-    def coq_build(self, targets, timeout=1500, jobs=8):
+    def coq_build(self, targets, timeout=3600, jobs=8):
         """make the given .vo targets (paths relative to coq/). Returns True on success."""
         with Lock('coq.lock'):
             ok, out = coq_makefile()
@@ -252,7 +252,7 @@ class Check:
             audit += 'Print Assumptions %s.%s.\n' % (m, t)
         ap = os.path.join(self.bdir, 'Audit_%s.v' % self.pid)
         open(ap, 'w').write(audit)
-        rc, out = sh(['coqc', '-Q', os.path.join(COQ, 'theories'), 'Verif', ap], cwd=self.bdir, timeout=600)
+        rc, out = sh(['coqc', '-Q', os.path.join(COQ, 'theories'), 'Verif', ap], cwd=self.bdir, timeout=1800)
         if rc != 0:
             problems.append('Print Assumptions run failed: ' + out[-800:])
             self.cov['discharged'] = 0
@@ -284,7 +284,7 @@ class Check:
         return [b for b in self.broken if b.startswith('translator')]
 
     # ---------- Go harness ----------
-    def go_build(self, cmd, tags='verif', out=None, timeout=600):
+    def go_build(self, cmd, tags='verif', out=None, timeout=1800):
         out = out or os.path.join(self.bdir, cmd + ('' if tags == 'verif' else '.' + re.sub(r'[^a-z]', '', tags)))
         if not PRIVATE:
             shutil.copyfile(os.path.join(REPO, 'codec', 'go.sum'), os.path.join(HARNESS, 'go.sum'))
@@ -295,7 +295,7 @@ class Check:
             return None
         return out
 
-    def run_harness(self, exe, args, timeout=900, env=None):
+    def run_harness(self, exe, args, timeout=1800, env=None):
         e = {'VERIF_SEED': str(self.seed), 'VERIF_TIER': self.tier}
         if env:
             e.update(env)
@@ -330,7 +330,7 @@ class Check:
             c.setdefault('extra', {}).update(summ['extra'])
 
     # ---------- model evaluation ----------
-    def coq_eval_cases(self, cdir, timeout=900, jobs=16):
+    def coq_eval_cases(self, cdir, timeout=1800, jobs=16):
         """run coqc on every cases_*.v under cdir in parallel; returns (n_cases_files_ok, mismatching ids, errors)"""
         files = sorted(glob.glob(os.path.join(cdir, 'cases_*.v')))
         procs = []
